@@ -1156,7 +1156,16 @@ class Interp(object):
             self.event('setattr_dynamic', freeze(a0) if not isinstance(a0, Obj) else a0.cls)
             return None
         if name == 'slice':
-            return Obj('slice', {'args': list(args)})
+            a = list(args)
+            if len(a) == 1:
+                st, sp, se = None, a[0], None
+            elif len(a) == 2:
+                st, sp, se = a[0], a[1], None
+            elif len(a) == 3:
+                st, sp, se = a
+            else:
+                raise Raise('TypeError', node, self.where(node, frame))
+            return Obj('slice', {'start': st, 'stop': sp, 'step': se, 'args': a})
         if name in ('list', 'tuple'):
             if isinstance(a0, (list, tuple)):
                 return list(a0) if name == 'list' else tuple(a0)
@@ -1554,10 +1563,12 @@ class Interp(object):
         builds a fresh Frame (fresh abstract objects) for each path."""
         results = []
         stack = [[]]
+        n_here = 0
         while stack:
             seq = stack.pop()
             self.n_paths += 1
-            if self.n_paths > self.MAX_PATHS:
+            n_here += 1
+            if n_here > self.MAX_PATHS:
                 raise PathLimit('more than %d paths (%s)' % (self.MAX_PATHS, label))
             frame = make_frame()
             path = Path(seq)
